@@ -74,6 +74,24 @@ fn main() {
                 i += step;
             }
         }
+        "run" => {
+            // dst run <property> <family> <index>: executes one generated script with its log (diagnostics)
+            if args.len() < 5 {
+                usage();
+            }
+            panics::install();
+            let fam = registry::family(&args[3]).unwrap_or_else(|| usage());
+            let idx: u64 = args[4].parse().unwrap_or(0);
+            let sc = worker::make_script(&args[2], fam, Tier::Quick, supervisor::seed_from_env(), idx, 1);
+            let o = worker::run_script(&sc, true);
+            for l in &o.log {
+                println!("  {l}");
+            }
+            for v in &o.violations {
+                println!("violation: [{}] {} -- {}", v.tag, v.signature, v.detail);
+            }
+            println!("inconclusive={} nontrivial={} virtual_ms={}", o.inconclusive, o.nontrivial, o.virtual_ms);
+        }
         "gen" => {
             if args.len() < 5 {
                 usage();
